@@ -21,6 +21,9 @@ type Lin struct {
 
 func LinConst(c int64) Lin { return Lin{C: c} }
 
+// Has reports whether the form mentions the symbol.
+func (a Lin) Has(sym string) bool { return a.T[sym] != 0 }
+
 func (a Lin) clone() Lin {
 	r := Lin{C: a.C, T: map[string]int64{}, nonneg: map[string]bool{}}
 	for k, v := range a.T {
@@ -187,6 +190,10 @@ func (e *LinEnv) Canon(v ssa.Value) string {
 	case *ssa.UnOp:
 		if x.Op == token.MUL {
 			switch a := x.X.(type) {
+			case *ssa.Alloc:
+				if vals, zero, ok := ReachingStores(a, x); ok && len(vals) == 1 && !zero {
+					return e.Canon(vals[0])
+				}
 			case *ssa.FieldAddr:
 				return e.Canon(a.X) + "." + FieldAddrRef(a).Name
 			case *ssa.FreeVar:
